@@ -135,6 +135,17 @@ CLAIMED = {
          "active table and passes larger ones through; and (unit F) in UTF-8 mode SO/SI and `ESC ( x` / `ESC ) x` produce no event while in 8-bit mode they call shift_out/shift_in/define_charset(x, mode).",
     design="5 C20", technique="Kani full-domain table proofs + Verus contracts (Screen side) + unit F (parser side)",
     note="NOT verified: the lazy_static MAPS table itself (that keys B/0/U/V map to LAT1/VT100/IBMPC/VAX42) is an abstract lookup on the Verus side; VAX42_MAP has no independent reference offline and is not checked."),
+ 'C04': dict(
+    text="Deductive proof on the verbatim draw() (unit `draw`; callees' contracts imported from unit `screen`, where they are proved) that the final state is related to the initial one by "
+         "draw_seq over the G0/G1-translated text (translation closure verified): for every state and every character, first wrap_rel (pending wrap + DECAWM: mark the row, CR, linefeed incl. "
+         "scroll at the bottom margin; DECAWM off: step back onto the last column(s)), then irm_rel (insert mode shifts the rest of the row by the width), then put_rel (lead cell, and an empty "
+         "placeholder for width 2, carrying the cursor's rendition; cursor advances to min(x+w, columns); every other cell, and everything but cursor and dirty rows, unchanged) or comb_rel "
+         "(zero-width combining mark appended to the previous cell / the last cell of the previous row, which is marked dirty); other zero-width or unprintable characters change nothing. "
+         "Unbounded in geometry (<= 65535^2), text length and state. The loop body is verified by an 8-way case split (width x IRM x cursor column), each arm a separate Verus query that "
+         "first asserts exhaustiveness of the arms.",
+    design="5 C04", technique="Verus contract: per-character relational semantics from the statement + trace predicate draw_seq over the verbatim loop; case-split queries",
+    note="As the general note, plus: unicode-width and is_combining_mark are uninterpreted (ASSUMED: a width is absent, 0, 1 or 2); NFC is uninterpreted; "
+         "the eight `assume(case_k)` statements are arms of a case split whose exhaustiveness is asserted in every variant."),
 }
 NA = {}
 checks = []
